@@ -1,6 +1,30 @@
 """C07 — TensorFrame row selection is coherent across all stypes and the target."""
 from __future__ import annotations
 
+# Clause-by-clause coverage of the property statement (properties.jsonl C07): oracle keys that judge the clause and
+# generator streams / drawn forms that exercise it.  stats() counts every form; sanity() fails closed when one is 0.
+CLAUSES = [
+    ("index with ANY row selection: int | slice | list | range | index tensor | bool mask",
+     "keys raises:*, no-raise:*, wrong-rows:*", "gen_index kinds int/slice/list/range/tensor/mask; tensors as int64 and "
+     "int32, contiguous and strided; tf[ix] and tf.__getitem__(ix)"),
+     ("returns a frame with the same columns", "keys names-changed, wrong-type, props-wrong (num_cols, stypes)", "every case"),
+    ("every feature of every stype (dense / ragged / dict of ragged) and the target hold exactly the selected rows in order",
+     "keys incoherent-rows:*, wrong-rows:*", "frames over random subsets of the nine stypes, with / without y"),
+    ("agreeing row-for-row with selecting from each column separately (observe_at get_col_feat)",
+     "key wrong-col-feat:* (return_stype=True and the plain form)", "read_cols on every result"),
+    ("reported length = number selected, zero included", "keys wrong-len:*, props-wrong (len, num_rows, is_empty)",
+     "empty selections, chains through empty frames, zero-row frames"),
+    ("a slice that overshoots the end behaves like the list slice", "keys wrong-len:*, wrong-rows:*, raises:*",
+     "overshooting slices (gen_chain), exhaustive bounds in the thorough tier"),
+    ("the source frame is left unchanged", "keys source-modified, index-argument-modified",
+     "deep snapshot of the frame and of the index object around every step; shared index objects"),
+    ("quantifier: explicit num_rows and no features; chains of selections",
+     "keys no-raise:featureless, wrong-len:featureless:*", "feature-less frames, chains of 1-4 steps"),
+    ("quantifier: all TensorFrames -- however constructed / handed over",
+     "same keys", "constructor call forms pos/kw/allpos/defaults; frames passed through copy.copy, .to('cpu'), .cpu(), "
+     ".to(device=...) before the chain"),
+]
+
 import itertools
 import json
 
@@ -80,9 +104,19 @@ def gen_case(rng, tier):
             fr["num_rows"] = 0
     else:
         fr = F.gen_frame(rng)
+    fr["ctor"] = rng.pick(F.CTORS)
     if fr["n"] > 0 and rng.chance(0.12):
-        return gen_shared_index_case(rng, fr)
-    return {"frame": fr, "chain": gen_chain(rng, fr["n"])}
+        case = gen_shared_index_case(rng, fr)
+    else:
+        case = {"frame": fr, "chain": gen_chain(rng, fr["n"])}
+    case["via"] = rng.wpick([(5, None), (2, "copy"), (1, "to"), (1, "cpu"), (1, "to_kw")])
+    case["call"] = rng.wpick([(4, "[]"), (1, "dunder")])
+    if not case.get("shared_index"):
+        # every representation torch offers for an index tensor / mask
+        case["chain"] = [dict(ix, **({"dtype": "int32"} if ix["t"] == "tensor" and rng.chance(0.3) else {}),
+                              **({"nc": True} if ix["t"] in ("tensor", "mask") and rng.chance(0.25) else {}))
+                         for ix in case["chain"]]
+    return case
 
 
 def gen_shared_index_case(rng, fr):
@@ -190,6 +224,9 @@ def read_cols(tf):
         for nm in names:
             try:
                 x, st = tf.get_col_feat(nm, return_stype=True)
+                if F.read_feat(tf.get_col_feat(nm)) != F.read_feat(x):
+                    out.append([nm, None, "get_col_feat(name) and get_col_feat(name, return_stype=True) differ"])
+                    continue
                 out.append([nm, st.value, F.read_feat(x)])
             except Exception as ex:
                 out.append([nm, None, C.exc_name(ex)])
@@ -205,11 +242,11 @@ def index_snapshot(obj):
     return ("other", repr(obj))
 
 
-def select_step(tf, obj):
+def select_step(tf, obj, call="[]"):
     """tf[obj] with the frame AND the index argument snapshotted before and compared after"""
     snap, isnap = F.deep_snapshot(tf), index_snapshot(obj)
     try:
-        r = tf[obj]
+        r = tf[obj] if call == "[]" else tf.__getitem__(obj)
     except Exception as ex:
         return None, {"ok": False, "exc": C.exc_name(ex), "src_same": F.deep_snapshot(tf) == snap,
                       "index_same": index_snapshot(obj) == isnap, "index_after": index_snapshot(obj)[-1]}
@@ -218,6 +255,7 @@ def select_step(tf, obj):
     try:
         rec["frame"] = F.read_frame(r)
         rec["cols"] = read_cols(r)
+        rec["props"] = F.read_props(r)
         rec["is_tf"] = type(r).__name__
     except Exception as ex:
         rec["read_exc"] = C.exc_name(ex) + ": " + str(ex)[:200]
@@ -225,20 +263,20 @@ def select_step(tf, obj):
 
 
 def run(case):
-    tf = F.build_frame(case["frame"])
-    obs = {"start": F.read_frame(tf), "steps": []}
+    tf = F.via(F.build_frame(case["frame"]), case.get("via"))
+    obs = {"start": F.read_frame(tf), "start_props": F.read_props(tf), "steps": []}
     shared = {}
 
     def index_object(ix):
         if not case.get("shared_index"):
-            return R.to_py_index(ix)
+            return F.to_index_obj(ix)
         key = json.dumps(ix, sort_keys=True)
         if key not in shared:
-            shared[key] = R.to_py_index(ix)              # built once, the SAME object is passed again later
+            shared[key] = F.to_index_obj(ix)              # built once, the SAME object is passed again later
         return shared[key]
 
     for ix in case["chain"]:
-        r, rec = select_step(tf, index_object(ix))
+        r, rec = select_step(tf, index_object(ix), case.get("call", "[]"))
         obs["steps"].append(rec)
         if r is None:
             break
@@ -336,6 +374,9 @@ def judge_step(k, ix, g, ref, rids, kd, where=""):
                     expected=exp, observed=got), ref, rids
     if g.get("is_tf") != "TensorFrame":
         return dict(key="wrong-type", what=f"step {k}{where}: result is a {g.get('is_tf')}"), ref, rids
+    if g.get("props") != F.ref_props(exp):
+        return dict(key="props-wrong", what=f"step {k}{where}: num_rows / num_cols / stypes / is_empty / len of tf[{ix}] "
+                    "do not describe the selected frame", expected=F.ref_props(exp), observed=g.get("props")), ref, rids
     for nm, st, colobs in g["cols"]:
         es, ecol = ref_col(exp, nm)
         if st != es or colobs != ecol:
@@ -353,6 +394,9 @@ def oracle(case, obs):
     if not F.obs_same(obs["start"], ref):
         return dict(key="build-mismatch", what="the frame read back differs from the data it was built from",
                     expected=ref, observed=obs["start"])
+    if obs.get("start_props") != F.ref_props(ref):
+        return dict(key="props-wrong", what="num_rows / num_cols / stypes / is_empty / len do not describe the frame",
+                    expected=F.ref_props(ref), observed=obs.get("start_props"))
     rids = list(range(fr["n"]))
     steps = obs["steps"]
     for k, ix in enumerate(case["chain"]):
@@ -422,7 +466,8 @@ def nontrivial_sig(case, obs):
 def stats(cases, obss):
     d = {"total": 0, "kinds": {}, "stypes": {}, "with_y": 0, "explicit_num_rows": 0, "featureless": 0, "rows": {},
          "index_kinds": {}, "chain_len": {}, "error_cases": 0, "through_empty": 0, "overshooting_slices": 0,
-         "shared_index_cases": 0, "second_frame_cases": 0}
+         "shared_index_cases": 0, "second_frame_cases": 0, "ctor_forms": {}, "via": {}, "call": {},
+         "index_repr": {"int32": 0, "strided": 0, "int64-contiguous": 0}}
     for c, o in zip(cases, obss):
         if c is None or not isinstance(o, dict):
             continue
@@ -433,6 +478,13 @@ def stats(cases, obss):
             d["stypes"][f["stype"]] = d["stypes"].get(f["stype"], 0) + 1
         d["with_y"] += fr["y"] is not None
         d["shared_index_cases"] += bool(c.get("shared_index"))
+        for k, v in (("ctor_forms", fr.get("ctor", "pos")), ("via", str(c.get("via"))), ("call", c.get("call", "[]"))):
+            d[k][v] = d[k].get(v, 0) + 1
+        for ix in c["chain"]:
+            if ix["t"] in ("tensor", "mask"):
+                d["index_repr"]["int32"] += ix.get("dtype") == "int32"
+                d["index_repr"]["strided"] += bool(ix.get("nc"))
+                d["index_repr"]["int64-contiguous"] += not ix.get("nc") and ix.get("dtype") != "int32"
         d["second_frame_cases"] += c.get("second") is not None
         d["explicit_num_rows"] += fr["num_rows"] is not None
         d["featureless"] += not fr["feats"]
@@ -477,6 +529,11 @@ def sanity(cases, obss):
             probs.append(what)
     if d["with_y"] == d["total"]:
         probs.append("no frame without a target")
+    for k, forms in (("ctor_forms", F.CTORS), ("via", [str(v) for v in F.VIAS]), ("call", ["[]", "dunder"]),
+                     ("index_repr", ["int32", "strided", "int64-contiguous"])):
+        for f_ in forms:
+            if d[k].get(f_, 0) == 0:
+                probs.append(f"{k} form {f_} never drawn")
     if not any(int(k) >= 2 for k in d["chain_len"]):
         probs.append("no chain of two or more selections")
     return probs
